@@ -6,6 +6,7 @@ import (
 	"reflect"
 	"time"
 
+	"reservoir/cache"
 	"reservoir/config"
 	"reservoir/proxy/responder"
 )
@@ -181,4 +182,98 @@ func HarnessAcceptedConfigStarts() {
 	w := &recWriter{h: http.Header{}}
 	vNoPanic(func() { p.handleHTTP(responder.NewHTTPResponder(w), newReq("GET", "o.test", "/r", "", nil)) }, "c18.accepted-config-panics-on-request")
 	vAssert(w.written && w.status == 200 && string(w.body) == "abc", "c18.accepted-config-does-not-serve")
+}
+
+// C19 on the request path: "every live component ends up following the most recent value
+// (... cache-policy and retry switches)".  The request path reads these switches from the
+// configuration; this harness changes one of them between two phases (any value before, any
+// value after, also back-to-back with an intermediate value) and checks that the behaviour of
+// each phase is the one the value current in that phase prescribes.
+func HarnessLiveSwitches() {
+	backend := symChoice(2)
+	e := newEnv(backend, 1<<30)
+	which := symChoice(4)
+	set := func(v bool) {
+		switch which {
+		case 0:
+			e.cfg.Proxy.CachePolicy.IgnoreCacheControl.Stage(v)
+			e.cfg.Proxy.CachePolicy.IgnoreCacheControl.CommitStaged()
+		case 1:
+			e.cfg.Proxy.RetryOnInvalidRange.Stage(v)
+			e.cfg.Proxy.RetryOnInvalidRange.CommitStaged()
+		case 2:
+			e.cfg.Proxy.RetryOnRange416.Stage(v)
+			e.cfg.Proxy.RetryOnRange416.CommitStaged()
+		default:
+			e.cfg.Proxy.CachePolicy.ForceDefaultMaxAge.Stage(v)
+			e.cfg.Proxy.CachePolicy.ForceDefaultMaxAge.CommitStaged()
+		}
+		vRunPending()
+	}
+	vClockFreeze(true)
+	phase := func(tag string, v bool) {
+		path := "/" + tag
+		switch which {
+		case 0: // ignore_cache_control: a no-store answer is stored iff the switch is on
+			e.o.script = []originResp{{status: 200, header: hdr("Cache-Control", "no-store"), body: []byte(tag)}}
+			before := len(e.o.seen)
+			e.o.script = append(make([]originResp, before), e.o.script...)
+			c1 := e.plain(newReq("GET", "o.test", path, "", nil))
+			n1 := len(e.o.seen)
+			c2 := e.plain(newReq("GET", "o.test", path, "", nil))
+			vAssert(c1.status == 200 && c2.status == 200, "c19.switch.request-failed")
+			vAssert((len(e.o.seen) == n1) == v, "c19.switch.ignore-cache-control-not-followed")
+		case 1: // retry_on_invalid_range: an unsatisfiable range on a stored entry is refused iff the switch is off
+			before := len(e.o.seen)
+			e.o.script = append(make([]originResp, before), originResp{status: 200, header: hdr("Cache-Control", "max-age=60"), body: []byte("abc")})
+			e.plain(newReq("GET", "o.test", path, "", nil))
+			c := e.plain(newReq("GET", "o.test", path, "", hdr("Range", "bytes=7-")))
+			if v {
+				vAssert(c.status == 200 && string(c.body) == "abc", "c19.switch.retry-on-invalid-range-not-followed")
+			} else {
+				vAssert(c.status == 416, "c19.switch.retry-on-invalid-range-not-followed")
+			}
+		case 2: // retry_on_range_416: an origin 416 is retried without Range iff the switch is on
+			before := len(e.o.seen)
+			e.o.script = append(make([]originResp, before), originResp{status: 416, header: hdr(), body: []byte("no")},
+				originResp{status: 200, header: hdr("Cache-Control", "no-store"), body: []byte("abc")})
+			c := e.plain(newReq("GET", "o.test", path, "", hdr("Range", "bytes=0-1")))
+			retried := false
+			for _, s := range e.o.seen[before:] {
+				if len(s.header["Range"]) == 0 {
+					retried = true
+				}
+			}
+			vAssert(retried == v, "c19.switch.retry-on-range-416-not-followed")
+			if !v {
+				vAssert(c.status == 416, "c19.switch.retry-on-range-416-not-followed")
+			}
+		default: // force_default_max_age: the origin's max-age=60 is replaced by the default (1 h) iff the switch is on
+			before := len(e.o.seen)
+			e.o.script = append(make([]originResp, before), originResp{status: 200, header: hdr("Cache-Control", "max-age=60"), body: []byte("abc")})
+			req := newReq("GET", "o.test", path, "", nil)
+			e.plain(req)
+			m, _, err := e.p.cache.GetMetadata(cache.MakeFromRequest(req))
+			vAssert(err == nil, "c04.storable-response-not-stored")
+			if err == nil {
+				life := m.Expires.Sub(m.TimeWritten)
+				if v {
+					vAssert(life == e.cfg.Proxy.CachePolicy.DefaultMaxAge.Read().Cast(), "c19.switch.force-default-max-age-not-followed")
+				} else {
+					vAssert(life == 60*time.Second, "c19.switch.force-default-max-age-not-followed")
+				}
+			}
+		}
+	}
+	v0 := symChoice(2) == 1
+	set(v0)
+	phase("a", v0)
+	v1 := symChoice(2) == 1
+	if symChoice(2) == 1 {
+		set(!v1) // back-to-back: an intermediate value that must not stick
+		vReach("back-to-back")
+	}
+	set(v1)
+	phase("b", v1)
+	vReach("both-phases")
 }
